@@ -211,8 +211,10 @@ def run_shape(shape):
             gotp = ite_chain([z(pos[k, c]) for k in range(n_o * n_t)], m)
             claims.append((f"position_row_m[{c}]", gotp == ite_chain(r, m / n_o) * ite_chain([O[i][c] for i in range(n_o)], m % n_o)))
         table_p, table_q = helpers[0][1], helpers[0][2]
-        acc.structural("helper_tables_length", len(table_p) == N and len(table_q) == N, detail=(len(table_p), len(table_q)))
-        if len(table_p) == N and len(table_q) == N:
+        shp = (np.shape(table_p), np.shape(table_q))      # a result that is no 1-D table at all (0-d, None, ...) is the code's answer, not a crash of the harness
+        tables_ok = shp == ((N,), (N,))
+        acc.structural("helper_tables_length", tables_ok, detail=shp, cex={"default_indices": True})
+        if tables_ok:
             claims.append(("position_index_of_n", ite_chain([z3.IntVal(int(x)) for x in table_p], n) == n / n_b))
             claims.append(("quaternion_index_of_n", ite_chain([z3.IntVal(int(x)) for x in table_q], n) == n % n_b))
         acc.add(prover.prove_all(path.premises + rng_n + [m >= 0, m < n_o * n_t], claims), make_cex=lambda r_: {})
@@ -293,6 +295,8 @@ def replay(cex):
         return {"reproduced": True, "detail": f"raised {e!r}"}
     if arr.shape != (N, 7) or len(fg) != N:
         return {"reproduced": True, "detail": f"shape {arr.shape} len {len(fg)}"}
+    if np.shape(tp) != (N,) or np.shape(tq) != (N,):
+        return {"reproduced": True, "detail": f"index helpers without an argument return objects of shape {np.shape(tp)} / {np.shape(tq)} for a grid of {N} points (n_b={n_b}, n_o={n_o}, n_t={n_t})"}
     for k in range(N):
         p, b = divmod(k, n_b)
         t, oi = divmod(p, n_o)
